@@ -136,9 +136,16 @@ def tables():
         letters, opt_i, nl_ok = read_unit_regex(k, rx)
         systems[k] = (base, letters, opt_i, nl_ok)
     q = _qemu_cls()
-    if q.SIZE_RE.pattern != EXPECTED_SIZE_RE or q.SIZE_RE.flags != (re.UNICODE | re.IGNORECASE):
+    size_re = getattr(q, 'SIZE_RE', None)
+    if not isinstance(size_re, re.Pattern):
+        # renamed: the class attribute that is a compiled regex with the four groups of the size pattern
+        cands = [v for v in vars(q).values() if isinstance(v, re.Pattern) and v.groups == 4]
+        if len(cands) != 1:
+            raise ValueError('QemuImgInfo has no recognisable size regex (SIZE_RE)')
+        size_re = cands[0]
+    if size_re.pattern != EXPECTED_SIZE_RE or size_re.flags != (re.UNICODE | re.IGNORECASE):
         raise ValueError('QemuImgInfo.SIZE_RE %r flags %r is not the pattern the model transcribes'
-                         % (q.SIZE_RE.pattern, q.SIZE_RE.flags))
+                         % (size_re.pattern, size_re.flags))
     spaces = [c for c in range(128) if re.fullmatch(r'\s', chr(c))]
     words = ''.join(chr(c) for c in range(128) if re.fullmatch(r'\w', chr(c)))
     if words != '0123456789ABCDEFGHIJKLMNOPQRSTUVWXYZ_abcdefghijklmnopqrstuvwxyz':
@@ -309,13 +316,98 @@ def impl_s2b(sys, text, ri):
     return canon(f, text, unit_system=v, return_int=ri)
 
 
-_QOBJ = []
+_QCONV = []
+
+
+def _behaves_like_extract_bytes(fn):
+    """fn maps the details text of a size field to an int the way the pinned `_extract_bytes` does"""
+    try:
+        with warnings.catch_warnings():
+            warnings.simplefilter('ignore')
+            if fn('64M (67108844 bytes)') != 67108844 or fn('2K') != 2048 or fn(' 512') != 512:
+                return False
+            try:
+                fn('no number here')
+            except ValueError:
+                return True
+            return False
+    except Exception:
+        return False
+
+
+def qemu_converter():
+    """('method', f) with f(details) the private size-field conversion of QemuImgInfo - the pinned name
+    `_extract_bytes` while it exists, otherwise the one-argument instance method that behaves like it -
+    or ('public', None) when no such method exists and the conversion is only reachable through the
+    constructor; HarnessBlind when not even that converts a size field."""
+    if _QCONV:
+        return _QCONV[0]
+    import inspect
+    import whitebox
+    cls = _qemu_cls()
+    try:
+        with warnings.catch_warnings():
+            warnings.simplefilter('ignore')
+            obj = cls()
+    except Exception as e:
+        raise whitebox.HarnessBlind('QemuImgInfo() cannot be constructed: %s' % e)
+    found = None
+    pinned = getattr(obj, '_extract_bytes', None)
+    if callable(pinned):
+        found = ('method', pinned)          # the pinned name: used as it is, whatever it does
+    else:
+        hits = []
+        for name, member in sorted(vars(cls).items()):
+            if name.startswith('__') or not inspect.isfunction(member):
+                continue
+            try:
+                params = list(inspect.signature(member).parameters.values())
+            except (TypeError, ValueError):
+                continue
+            required = [q for q in params if q.default is q.empty and q.kind in (q.POSITIONAL_ONLY, q.POSITIONAL_OR_KEYWORD)]
+            if len(required) != 2:
+                continue
+            bound = getattr(obj, name)
+            if _behaves_like_extract_bytes(bound):
+                hits.append(bound)
+        if len(hits) == 1:
+            found = ('method', hits[0])
+        elif len(hits) > 1:
+            raise whitebox.HarnessBlind('several QemuImgInfo methods behave like _extract_bytes')
+    if found is None:
+        def through(details):
+            with warnings.catch_warnings():
+                warnings.simplefilter('ignore')
+                return cls('image: x\nvirtual size: %s\n' % details).virtual_size
+        try:
+            ok = type(through('2K')) is int
+        except ValueError:
+            ok = True
+        except Exception:
+            ok = False
+        if not ok:
+            raise whitebox.HarnessBlind('no QemuImgInfo method converts a size field text and the constructor '
+                                        'does not either')
+        found = ('public', None)
+    _QCONV.append(found)
+    return found
+
+
+def expressible_as_field(details):
+    """the details text reaches the size conversion unchanged when written after 'virtual size: '"""
+    return (details == details.strip() and details not in ('', 'None', 'unavailable')
+            and not re.search(r'[\n\r\x0b\x0c\x1c-\x1e\x85\u2028\u2029]', details))
 
 
 def impl_qemu(details):
-    if not _QOBJ:
-        _QOBJ.append(_qemu_cls()())
-    return canon(_QOBJ[0]._extract_bytes, details)
+    """the size-field conversion on `details`; ('unobservable',) when it can only be reached through the
+    public constructor and this text cannot be written as a field"""
+    how, f = qemu_converter()
+    if how == 'method':
+        return canon(f, details)
+    if not expressible_as_field(details):
+        return ('unobservable',)
+    return impl_field(details, 0)
 
 
 FIELDS = [('virtual size', 'virtual_size'), ('disk size', 'disk_size'), ('cluster_size', 'cluster_size')]
@@ -696,6 +788,9 @@ def correspondence(ctx):
         ctx.evaluations += 1
         ctx.count('corr/' + tag)
         py = impl_qemu(d)
+        if py[0] == 'unobservable':
+            ctx.count('corr/qemu/unobservable-without-private-method')
+            continue
         mo = parse_reply(replies[2 * i].partition(';')[0])
         ctx.count('corr/qemu/impl/' + (py[1] if py[0] == 'err' else py[0]))
         ctx.count('corr/qemu/model/' + (mo[1] if mo[0] == 'err' else mo[0]))
@@ -876,6 +971,8 @@ def assess_qemu(details, through_object=None):
     """Oracle for size fields of the documented shapes only (returns None for other texts unless an
     exception other than ValueError escapes)."""
     py = impl_qemu(details) if through_object is None else impl_field(details, through_object)
+    if py[0] == 'unobservable':
+        return None
     if py[0] == 'err' and py[1] != 'ValueError':
         return ('wrong-exception', 'size field raised %s' % py[1],
                 'N3-float-range' if py[1] == 'OverflowError' and qemu_beyond_binary64(details) else None)
